@@ -223,11 +223,18 @@ class ElemSource:
             if self.queued is not None:
                 a, self.queued = self.queued, None
                 g = wf_glyph(r)
+                if self.prev_cs == 18 and r.chance(2, 3):
+                    # ... together with the longest character-set change: out of UTF-8
+                    # into a set with a two-byte designator
+                    g = (r.pick([2, 13, 2, 13, 0, 17]), r.rng(0x21, 0x7E), 0, 0)
                 self.prev_attr, self.prev_cs, self.prev_g = a, g[0], g
                 return el(g, a)
             if r.chance(1, 25):
                 a, self.queued = extreme_pair(r)
                 g = wf_glyph(r)
+                if r.chance(1, 2):
+                    cp = r.rng(0xA0, 0xFFFF)
+                    g = (18,) + tuple(list(chr(cp).encode("utf-8", "surrogatepass")) + [0])[:3] if cp < 0x800 else (18,) + tuple(chr(cp).encode("utf-8", "surrogatepass"))
                 self.prev_attr, self.prev_cs, self.prev_g = a, g[0], g
                 return el(g, a)
         if self.wild:
@@ -751,10 +758,10 @@ def gen_items_case(r, idx):
     for _ in range(r.rng(1, 3)):
         its = gen_items(r, r.pick([31, 32, 33, 64, 65, 130]) if long else r.rng(1, 8), prev_bare=pb)
         pb = last_bare(its)
-        if not long and r.chance(1, 4):
+        if not long and (r.chance(1, 4) or idx % 500 == 7):
             # the items arrive cut across two reads, and the application uses the
             # terminal for something else in between
-            between = r.pick(["-", "-", "sleep_1200" if idx % 400 == 7 else "-", "size_%d_%d" % (r.rng(1, 9), r.rng(1, 5)), "size_80_24", "mouse_0", "mouse_1", "hide", "show",
+            between = "sleep_1200" if idx % 500 == 7 else r.pick(["-", "-", "size_%d_%d" % (r.rng(1, 9), r.rng(1, 5)), "size_80_24", "mouse_0", "mouse_1", "hide", "show",
                               "erase_0", "move_0_0", "save", "restore", "buf_1", "buf_0", "title_6162", "alive_0", "alive_1",
                               "elem_" + el(wf_glyph(r), wf_attr(r)).replace(" ", "_")])
             lines.append("T 0 itemsplit %d %s %s" % (r.below(64), between, " ".join(its)))
